@@ -275,12 +275,13 @@ def _mrs_assignments(fn):
 def _match_site(repo, key, path, cls, fn, mode, skeleton, binds):
     where = '%s:%s.%s' % (path, cls, fn)
     src = open(os.path.join(repo, path)).read()
-    f, cnode = _find_function(ast.parse(src), cls, fn, where)
+    tree = ast.parse(src)
+    f, cnode = _find_function(tree, cls, fn, where)
     sk = ast.parse(skeleton.strip() + '\n').body
     if mode == 'whole':
         # both sides go through the same behaviour-preserving normalisation (see c11norm.py): private helpers
         # of the class inlined, idioms brought to one form, locals renamed by order of first binding
-        c11norm.normalise(f, cnode)
+        c11norm.normalise(f, cnode, tree)
         f.decorator_list = []
         f.returns = None
         skf = c11norm.normalise(sk[0])
